@@ -195,7 +195,7 @@ def main():
         log.append(out[-2000:])
 
     # 5: streams
-    reports = []; traces = []
+    reports = []; traces = []; crash_violations = []
     if harness_ok:
         for s in cfg["streams"]:
             cmd = [HBIN, s, "--tier", tier, "--seed", str(seed), "--out", outdir]
@@ -204,7 +204,23 @@ def main():
             log.append(f"stream {s}: rc={rc} {out.strip().splitlines()[-1] if out.strip() else ''}")
             rp = os.path.join(outdir, f"{s}.report.json")
             if rc != 0 or not os.path.exists(rp):
-                broken.append(f"harness-stream:{s} failed: {out[-300:]}")
+                # the stream process died (abort / stack overflow inside the library) or its watchdog fired (a call that
+                # never returns): re-run it in journal mode, where every call is written and flushed before it is made
+                jdir = os.path.join(outdir, f"journal-{s}")
+                shutil.rmtree(jdir, ignore_errors=True)
+                rc2, out2 = sh(cmd, timeout=6 * 3600, env={"RITI_HARNESS_JOURNAL": jdir})
+                found = None
+                for jf in sorted(glob.glob(os.path.join(jdir, "*.journal")), key=os.path.getmtime, reverse=True):
+                    lines = [l for l in open(jf, encoding="utf-8", errors="replace").read().splitlines() if l.strip()]
+                    if len(lines) >= 2 and lines[-1] != "ok" and not lines[-1].startswith(("layout=", "(continued")):
+                        found = {"context": [l for l in lines if l.startswith(("layout=", "(continued"))], "events": [l for l in lines if l != "ok" and not l.startswith(("layout=", "(continued"))], "last_call_never_returned": lines[-1]}
+                        break
+                what = ("watchdog: a library call did not return" if (rc == 97 or rc2 == 97) else f"the process running the library died (exit {rc})") + ": " + out.strip().splitlines()[-1][:200] if out.strip() else ""
+                if found:
+                    crash_violations.append({"property": pid, "class": "process-abort-or-hang", "what": what + f" — last call: {found['last_call_never_returned']} in {found['context'][:1]}", "replay": {"stream": s, **found}})
+                else:
+                    broken.append(f"harness-stream:{s} failed (rc={rc}) and the journal re-run did not locate the call: {out[-300:]}")
+                shutil.rmtree(jdir, ignore_errors=True)
                 continue
             reports.append(json.load(open(rp, encoding="utf-8")))
             traces += sorted(glob.glob(os.path.join(outdir, f"{s}.*.trace")) + glob.glob(os.path.join(outdir, f"{s}.trace")))
@@ -225,7 +241,7 @@ def main():
 
     # 7: verdict
     known, fixed = load_known()
-    viol = [v for r in reports for v in r["violations"] if v["property"] == pid]
+    viol = [v for r in reports for v in r["violations"] if v["property"] == pid] + crash_violations
     new = []; known_hit = {}
     for v in viol:
         k = next((x for x in known if x[0] == pid and x[1] == v["class"]), None)
